@@ -133,11 +133,20 @@ func oracleC13(ctx *progCtx) {
 			if got := typeStr(c.InputBody); got != normType(rt.Input) {
 				bad("input-body", "bound input type %q, want %q", got, rt.Input)
 			}
-			if got := typeStr(c.Return); got != normType(rt.Return) {
-				bad("return-type", "return type %q, want %q", got, rt.Return)
-			}
-			if c.IsReturnBlob != rt.Blob {
-				bad("blob-flag", "IsReturnBlob=%v, want %v", c.IsReturnBlob, rt.Blob)
+			if rt.HasAlt {
+				// two success returns of different kinds: either may be reported, as one (type, flag) pair
+				w.Count("two-return-kinds-compared", 1)
+				got := typeStr(c.Return)
+				if !(got == normType(rt.Return) && c.IsReturnBlob == rt.Blob) && !(got == normType(rt.AltReturn) && c.IsReturnBlob == rt.AltBlob) {
+					bad("return-pair-inconsistent", "return type %q with IsReturnBlob=%v describes neither return statement of the handler (%q blob=%v in a branch, %q blob=%v at the end)", got, c.IsReturnBlob, rt.AltReturn, rt.AltBlob, rt.Return, rt.Blob)
+				}
+			} else {
+				if got := typeStr(c.Return); got != normType(rt.Return) {
+					bad("return-type", "return type %q, want %q", got, rt.Return)
+				}
+				if c.IsReturnBlob != rt.Blob {
+					bad("blob-flag", "IsReturnBlob=%v, want %v", c.IsReturnBlob, rt.Blob)
+				}
 			}
 			var gq, wq []string
 			for _, q := range c.InputQueryParams {
